@@ -244,7 +244,8 @@ def gen_case(rng, *, n_ops, listeners=True, waits=True, attach=False, weird=Fals
                     ops.append(['viap', rng.choice(built_oids), '127.0.0.1', w.port])
                 else:
                     registered.append(w.port)
-                    ops.append(['via', rng.choice(built_oids), '127.0.0.1', w.port])
+                    # a third of them as HTTP requests through Circuit.web_agent() (the same origin every time)
+                    ops.append(['viaw' if rng.random() < 0.35 else 'via', rng.choice(built_oids), '127.0.0.1', w.port])
                 continue
             if unanswered and k < 0.65:
                 port = unanswered.pop(rng.randrange(len(unanswered)))
@@ -673,9 +674,11 @@ class Spec:
             so = self.asked.pop(op[1], None)
             if so is not None:
                 self.decide(so, op[2])
-        elif k in ('via', 'viap'):
+        elif k in ('via', 'viap', 'viaw'):
             c = self.cobj[op[1]]
             d = self.new_d()
+            if k == 'viaw':
+                self.ghosts.add(d)
             if c['built'] is True:
                 self.targets[(op[2], op[3])] = (op[1], d)
             else:
